@@ -26,7 +26,10 @@ def make_model(kind: str, p: dict):
         return M.Thermal(p["k"], p["c"], p["thickness"])
     if kind == "pf":
         mat = M.Elastic.Isotropic(p["dim"], E=p["E"], v=p["v"], planeStress=p["planeStress"], thickness=p["thickness"])
-        return M.PhaseField(mat, p["split"], p["regularization"], Gc=p["Gc"], l0=p["l0"], solver=p["solver"])
+        pfm = M.PhaseField(mat, p["split"], p["regularization"], Gc=p["Gc"], l0=p["l0"], solver=p["solver"])
+        if p.get("A") is not None:
+            pfm.A = np.array(p["A"], dtype=float)
+        return pfm
     if kind == "neohook":
         m = M.HyperElastic.NeoHookean(p["dim"], K=p["K"], thickness=p["thickness"])
         m.eta = p.get("eta", 0.0)
@@ -132,6 +135,7 @@ def gen_model_params(kind: str, rng, dim: int) -> dict:
             "Gc": float(np.round(10 ** rng.uniform(-2, 0), 5)),
             "l0": float(np.round(rng.uniform(0.1, 0.4), 3)),
             "solver": ["History", "HistoryDamage", "BoundConstrain"][int(rng.integers(3))],
+            "A": None,
         }
     if kind == "neohook":
         return {"dim": dim, "K": float(np.round(10 ** rng.uniform(1, 3), 3)), "thickness": float(np.round(rng.uniform(0.5, 2.0), 3)), "eta": 0.0}
@@ -173,7 +177,15 @@ def gen_param_write(kind: str, rng) -> tuple:
             return name, float(np.round(rng.uniform(0.5, 3.0), 3))
         return name, float(np.round(rng.uniform(0.5, 2.0), 3))
     if kind == "pf":
-        name = ["Gc", "l0", "regularization", "split", "mat.E", "mat.v", "mat.thickness"][int(rng.integers(7))]
+        name = ["Gc", "l0", "regularization", "split", "mat.E", "mat.v", "mat.thickness", "solver", "A"][int(rng.integers(9))]
+        if name == "solver":
+            return name, ["History", "HistoryDamage", "BoundConstrain"][int(rng.integers(3))]
+        if name == "A":
+            # structural tensor of the crack density (symmetric positive definite, in-plane rotation of diag(1, a))
+            a, th = float(np.round(rng.uniform(1.0, 6.0), 3)), float(np.round(rng.uniform(0, np.pi), 3))
+            R = np.array([[np.cos(th), -np.sin(th)], [np.sin(th), np.cos(th)]])
+            A2 = np.round(R @ np.diag([1.0, a]) @ R.T, 8)
+            return name, A2.tolist()
         if name == "Gc":
             return name, float(np.round(10 ** rng.uniform(-2, 0), 5))
         if name == "l0":
@@ -188,10 +200,14 @@ def gen_param_write(kind: str, rng) -> tuple:
             return name, float(np.round(rng.uniform(0.0, 0.35), 3))
         return name, float(np.round(rng.uniform(0.5, 2.0), 3))
     if kind == "neohook":
-        name = ["K", "thickness"][int(rng.integers(2))]
+        name = ["K", "thickness", "eta"][int(rng.integers(3))]
+        if name == "eta":
+            return name, float(np.round(rng.uniform(0.0, 1.0), 3))
         return (name, float(np.round(10 ** rng.uniform(1, 3), 3))) if name == "K" else (name, float(np.round(rng.uniform(0.5, 2.0), 3)))
     if kind == "svk":
-        name = ["lmbda", "mu", "thickness"][int(rng.integers(3))]
+        name = ["lmbda", "mu", "thickness", "eta"][int(rng.integers(4))]
+        if name == "eta":
+            return name, float(np.round(rng.uniform(0.0, 1.0), 3))
         if name == "thickness":
             return name, float(np.round(rng.uniform(0.5, 2.0), 3))
         return name, float(np.round(10 ** rng.uniform(1, 2), 3))
@@ -208,6 +224,12 @@ def write_param(model, kind: str, params: dict, name: str, val) -> None:
     if kind == "pf" and name.startswith("mat."):
         setattr(model.material, name[4:], val)
         params[name[4:]] = val
+    elif kind == "pf" and name == "A":
+        dim = model.dim
+        A = np.eye(dim)
+        A[:2, :2] = np.array(val, dtype=float)
+        model.A = A
+        params[name] = A.tolist()
     else:
         setattr(model, name, val)
         params[name] = val
